@@ -21,7 +21,14 @@ import (
 	"time"
 
 	"github.com/go-logr/logr"
+	apiv1 "k8s.io/api/core/v1"
+	apierrors "k8s.io/apimachinery/pkg/api/errors"
+	"k8s.io/apimachinery/pkg/runtime/schema"
+	"k8s.io/apimachinery/pkg/types"
+	"sigs.k8s.io/controller-runtime/pkg/client"
+	"sigs.k8s.io/controller-runtime/pkg/reconcile"
 
+	"github.com/nginx/nginx-gateway-fabric/internal/framework/controller"
 	"github.com/nginx/nginx-gateway-fabric/internal/framework/events"
 	"github.com/nginx/nginx-gateway-fabric/verifharness/rng"
 )
@@ -41,12 +48,62 @@ type handler struct {
 	finished int
 }
 
+// evID decodes the identity of an event: plain ints (direct mode) or the id carried in the name of
+// the object of an UpsertEvent / the NamespacedName of a DeleteEvent (reconciler mode). The id is
+// re-read from the event every time, so an object shared or overwritten between events shows up.
+func evID(e interface{}) int {
+	switch x := e.(type) {
+	case int:
+		return x
+	case *events.UpsertEvent:
+		return idFromName(x.Resource.GetName())
+	case *events.DeleteEvent:
+		if _, ok := x.Type.(*apiv1.ConfigMap); !ok {
+			return -2
+		}
+		return idFromName(x.NamespacedName.Name)
+	}
+	return -1
+}
+
+func idFromName(n string) int {
+	if !strings.HasPrefix(n, "obj-") {
+		return -3
+	}
+	v, err := strconv.Atoi(n[4:])
+	if err != nil {
+		return -4
+	}
+	return v
+}
+
 func toInts(b events.EventBatch) []int {
 	out := make([]int, 0, len(b))
 	for _, e := range b {
-		out = append(out, e.(int))
+		v := evID(e)
+		if v < 0 {
+			v = 900000 - v // an undecodable event: never equal to a sent id
+		}
+		out = append(out, v)
 	}
 	return out
+}
+
+// getter is the fake API server of reconciler mode: ids in `deleted` are NotFound, all others exist.
+type getter struct{ deleted map[int]bool }
+
+func (g getter) Get(_ context.Context, key client.ObjectKey, obj client.Object, _ ...client.GetOption) error {
+	id := idFromName(key.Name)
+	if g.deleted[id] {
+		return apierrors.NewNotFound(schema.GroupResource{Resource: "configmaps"}, key.Name)
+	}
+	cm, ok := obj.(*apiv1.ConfigMap)
+	if !ok {
+		return fmt.Errorf("unexpected type %T", obj)
+	}
+	cm.Namespace, cm.Name = key.Namespace, key.Name
+	cm.Data = map[string]string{"id": strconv.Itoa(id)}
+	return nil
 }
 
 func (h *handler) HandleEventBatch(_ context.Context, _ logr.Logger, batch events.EventBatch) {
@@ -110,7 +167,7 @@ type result struct {
 }
 
 // runSchedule executes one schedule. ops: 's' send, 'r' release, 'c' cancel.
-func runSchedule(r *rng.R, sync bool, maxOps int) result {
+func runSchedule(r *rng.R, sync bool, maxOps int, viaReconciler bool) result {
 	nFirst := r.Intn(4)
 	first := make(events.EventBatch, 0, nFirst)
 	firstInts := []int{}
@@ -125,6 +182,37 @@ func runSchedule(r *rng.R, sync bool, maxOps int) result {
 	el := events.NewEventLoop(ch, logr.Discard(), h, preparer{first})
 	ctx, cancel := context.WithCancel(context.Background())
 	defer cancel()
+	// reconciler mode: events reach the channel through the real controller.Reconciler
+	gt := getter{deleted: map[int]bool{}}
+	rec := controller.NewReconciler(controller.ReconcilerConfig{
+		Getter: gt, ObjectType: &apiv1.ConfigMap{}, EventCh: ch,
+	})
+	send := func(e int) bool {
+		if !viaReconciler {
+			select {
+			case ch <- e:
+				return true
+			case <-time.After(wait):
+				return false
+			}
+		}
+		if r.Chance(30, 100) {
+			gt.deleted[e] = true
+		}
+		done := make(chan struct{})
+		rctx, rcancel := context.WithTimeout(ctx, wait)
+		defer rcancel()
+		go func() {
+			_, _ = rec.Reconcile(rctx, reconcile.Request{NamespacedName: types.NamespacedName{Namespace: "ns", Name: "obj-" + strconv.Itoa(e)}})
+			close(done)
+		}()
+		select {
+		case <-done:
+			return rctx.Err() == nil
+		case <-time.After(2 * wait):
+			return false
+		}
+	}
 	done := make(chan error, 1)
 	go func() { done <- el.Start(ctx) }()
 
@@ -154,9 +242,7 @@ func runSchedule(r *rng.R, sync bool, maxOps int) result {
 		case k < 5: // send
 			e := next
 			next++
-			select {
-			case ch <- e:
-			case <-time.After(wait):
+			if !send(e) {
 				res.inconclusive = "send blocked"
 				return res
 			}
@@ -332,13 +418,14 @@ func Run(args []string) int {
 	n := fs.Int("n", 100, "number of schedules")
 	maxOps := fs.Int("maxops", 30, "max ops per schedule")
 	racy := fs.Bool("racy", false, "do not wait for acknowledgements (judge only)")
+	viaRec := fs.Bool("reconciler", false, "deliver events through the real controller.Reconciler (upserts and deletes)")
 	_ = fs.Parse(args)
 	r := rng.New(*seed)
 	w := bufio.NewWriter(os.Stdout)
 	defer w.Flush()
 	anomalies := 0
 	for i := 0; i < *n && anomalies < 12; i++ {
-		res := runSchedule(r.Fork(), !*racy, *maxOps)
+		res := runSchedule(r.Fork(), !*racy, *maxOps, *viaRec)
 		if res.inconclusive != "" && res.judge == "" {
 			anomalies++
 			fmt.Fprintf(w, "X %s\n", res.inconclusive)
